@@ -136,6 +136,12 @@ class ObjectFactory:
         return pobjects.OpaqueObject(value, opaque_type)
 
     def _build_pie_split_key(self, secret):
+        if secret.key_block.cryptographic_algorithm is None or \
+                secret.key_block.cryptographic_length is None:
+            raise TypeError(
+                "core key block must specify the cryptographic algorithm and "
+                "length"
+            )
         algorithm = secret.key_block.cryptographic_algorithm.value
         return pobjects.SplitKey(
             cryptographic_algorithm=algorithm,
